@@ -9,9 +9,9 @@
 set -u
 ID=$1; V=$2; shift 2
 CHECKS=${*:-$ID}
-WT=/tmp/wt-$ID
+WT=${WT_PREFIX:-/tmp/wt-}$ID
 SRC=$WT/seeded/$V
-OUT=/verif/seeded/$ID-$V
+OUT=/verif/seeded/$ID-${OUT_TAG:-}$V
 [ -f $SRC/patch.diff ] || { echo "no $SRC/patch.diff"; exit 2; }
 mkdir -p $OUT
 cd $WT || exit 2
@@ -29,6 +29,8 @@ if cargo test --offline >/dev/null 2>&1; then res "existing_tests_pass=true"; T=
 git checkout -q -- src
 # against /repo with our checks
 cd /verif
+# (the evidence files are rewritten by every run: keep the ones of the unchanged tree)
+rm -rf /verif/target/evidence.keep; cp -r /verif/evidence /verif/target/evidence.keep
 git -C /repo apply $SRC/patch.diff || { res "patch does not apply to /repo"; exit 1; }
 CAUGHT=""; MISSED=""
 for c in $CHECKS; do
@@ -38,6 +40,7 @@ for c in $CHECKS; do
 done
 git -C /repo checkout -- .
 rm -f /verif/replays/*.json
+rm -rf /verif/evidence; mv /verif/target/evidence.keep /verif/evidence
 res "caught_by=$CAUGHT"
 res "missed_by=$MISSED"
 cp $SRC/patch.diff $OUT/patch.diff; cp $SRC/demo.rs $OUT/demo.rs
